@@ -475,6 +475,147 @@ func main() {
 	sort.Strings(undoDirty)
 	fact("dirty flag clears %v; dirty set deletes %v; InsertBlob gate %q", dirtyClears, dirtyDeletes, insertGate)
 
+	// ---- core/blockchain_add.go: the head record is written only after saveStates succeeded
+	bf := parse(filepath.Join(repo, "src/core/blockchain_add.go"))
+	callTok := func(st ast.Stmt) string {
+		s := src(st)
+		switch {
+		case strings.HasPrefix(s, "logger."):
+			return ""
+		case strings.HasPrefix(s, "blockByte, err := types.MarshalBlock(") || strings.HasPrefix(s, "headerByte, err := types.MarshalBlockHeader("):
+			return "marshal"
+		case strings.HasPrefix(s, "if err != nil {") && strings.Contains(s, "return types.AddBlockFailed, nil"):
+			return "marshal"
+		case s == "chain.markAddBlock(blockByte)":
+			return "markAddBlock"
+		case strings.HasPrefix(s, "if !chain.saveBlockByHash(") && strings.Contains(s, "return types.AddBlockFailed"):
+			return "saveBlockByHash-or-fail"
+		case strings.HasPrefix(s, "if !chain.saveBlockByHeight(") && strings.Contains(s, "return types.AddBlockFailed"):
+			return "saveBlockByHeight-or-fail"
+		case s == "saveStateResult, accountDB, receipts := chain.saveStates(remoteBlock)":
+			return "saveStates"
+		case strings.HasPrefix(s, "if !saveStateResult {") && strings.Contains(s, "return types.AddBlockFailed, nil"):
+			return "if-not-saved-return-failed"
+		case s == "chain.updateVerifyHash(remoteBlock)":
+			return "updateVerifyHash"
+		case s == "chain.updateTxPool(remoteBlock, receipts)":
+			return "updateTxPool"
+		case strings.HasPrefix(s, "chain.topBlocks.Add("):
+			return "topBlocks.Add"
+		case strings.HasPrefix(s, "if !chain.updateLastBlock(accountDB, remoteBlock, headerByte)"):
+			return "updateLastBlock-or-fail"
+		case strings.HasPrefix(s, "if chain.latestBlock != nil {") && strings.Contains(s, "common.SetBlockHeight"):
+			return ""
+		case s == "chain.eraseAddBlockMark()":
+			return "eraseAddBlockMark"
+		case s == "chain.successOnChainCallBack(remoteBlock)":
+			return "successCallback"
+		case s == "return types.AddBlockSucc, headerByte":
+			return "return-succ"
+		}
+		return "unknown:" + s
+	}
+	var ib []string
+	if fd := findMethod(bf, "blockChain", "insertBlock"); fd != nil {
+		for _, st := range fd.Body.List {
+			if t := callTok(st); t != "" {
+				ib = append(ib, t)
+			}
+		}
+	} else {
+		ib = []string{"insertBlock-not-found"}
+	}
+	ib = dedupe(ib)
+	var ss []string
+	if fd := findMethod(bf, "blockChain", "saveStates"); fd != nil {
+		for _, st := range fd.Body.List {
+			s := src(st)
+			switch {
+			case strings.HasPrefix(s, "defer logger.") || strings.HasPrefix(s, "var state ") || strings.HasPrefix(s, "var receipts "):
+			case strings.HasPrefix(s, "if value, exit := chain.verifiedBlocks.Get(b.Header.Hash); exit {") && strings.Contains(s, "chain.checkStates(b, false)") && strings.Contains(s, "return false, state, receipts"):
+				ss = append(ss, "state-from-verified-cache-or-execute-else-return-false")
+			case s == "root, err := state.Commit(true)":
+				ss = append(ss, "state.Commit")
+			case strings.HasPrefix(s, "if err != nil {") && strings.Contains(s, "return false, state, receipts"):
+				ss = append(ss, "if-err-return-false")
+			case s == "trieDB := middleware.AccountDBManagerInstance.GetTrieDB()":
+			case s == "err = trieDB.Commit(root, false)":
+				ss = append(ss, "trieDB.Commit-root")
+			case s == "return true, state, receipts":
+				ss = append(ss, "return-true")
+			default:
+				ss = append(ss, "unknown:"+s)
+			}
+		}
+	} else {
+		ss = []string{"saveStates-not-found"}
+	}
+	var ul []string
+	if fd := findMethod(bf, "blockChain", "updateLastBlock"); fd != nil {
+		for i, st := range fd.Body.List {
+			s := src(st)
+			switch {
+			case s == "err := chain.heightDB.Put([]byte(latestBlockKey), headerJson)":
+				ul = append(ul, fmt.Sprintf("stmt%d:Put-latestBlockKey", i))
+			case strings.HasPrefix(s, "if err != nil {") && strings.Contains(s, "return false"):
+				ul = append(ul, "if-err-return-false")
+			}
+		}
+	}
+	// every writer of the head record in src/core (non-test, non-verif files)
+	var headWriters []string
+	filepath.Walk(filepath.Join(repo, "src/core"), func(p string, info os.FileInfo, err error) error {
+		if err != nil || info.IsDir() || !strings.HasSuffix(p, ".go") || strings.HasSuffix(p, "_test.go") || strings.Contains(filepath.Base(p), "verif_") {
+			return nil
+		}
+		f, err := parser.ParseFile(fset, p, nil, 0)
+		if err != nil {
+			return nil
+		}
+		rel, _ := filepath.Rel(repo, p)
+		for _, d := range f.Decls {
+			fd, ok := d.(*ast.FuncDecl)
+			if !ok || fd.Body == nil {
+				continue
+			}
+			ast.Inspect(fd.Body, func(n ast.Node) bool {
+				if c, ok := n.(*ast.CallExpr); ok {
+					if sel, ok := c.Fun.(*ast.SelectorExpr); ok && (sel.Sel.Name == "Put" || sel.Sel.Name == "Delete") && len(c.Args) >= 1 && strings.Contains(src(c.Args[0]), "latestBlockKey") {
+						headWriters = append(headWriters, rel+":"+fd.Name.Name+":"+sel.Sel.Name)
+					}
+				}
+				return true
+			})
+		}
+		return nil
+	})
+	sort.Strings(headWriters)
+	// fork_block.go saveState: same commit pair
+	var fs []string
+	if ff := parse(filepath.Join(repo, "src/core/fork_block.go")); ff != nil {
+		if fd := findMethod(ff, "blockChainFork", "saveState"); fd != nil {
+			for _, st := range fd.Body.List {
+				s := src(st)
+				switch {
+				case strings.HasPrefix(s, "if state == nil {"):
+				case strings.HasPrefix(s, "fork.logger."):
+				case s == "root, err := state.Commit(true)":
+					fs = append(fs, "state.Commit")
+				case strings.HasPrefix(s, "if err != nil {") && strings.Contains(s, "return err"):
+					fs = append(fs, "if-err-return-err")
+				case s == "trieDB := middleware.AccountDBManagerInstance.GetTrieDB()":
+				case s == "err = trieDB.Commit(root, false)":
+					fs = append(fs, "trieDB.Commit-root")
+				case s == "return nil":
+					fs = append(fs, "return-nil")
+				default:
+					fs = append(fs, "unknown:"+s)
+				}
+			}
+		}
+	}
+	fact("insertBlock %v; saveStates %v; updateLastBlock %v; head writers %v; fork saveState %v", ib, ss, ul, headWriters, fs)
+
 	// ---- hasher.store: insert before onleaf
 	hf := parse(filepath.Join(repo, "src/storage/trie/hasher.go"))
 	store := findMethod(hf, "hasher", "store")
@@ -532,6 +673,11 @@ namespace Rangers.Generated.TrieDbFacts
 	fmt.Fprintf(&o, "/-- SHA3-256 of the empty string, big-endian, as the harness shows it (first 7 bytes). -/\ndef emptyDataPrefix7 : Nat := 0x%x\n\n", prefix7)
 	fmt.Fprintf(&o, "/-- order of the three commit steps in `AccountDB.Commit`'s per-object branch and after it. -/\ndef stateCommitSkeleton : List String :=\n  %s\n\n", leanStrList(sk))
 	fmt.Fprintf(&o, "/-- in `hasher.store`: `db.insert` precedes the `onleaf` callback. -/\ndef storeInsertBeforeOnleaf : Bool := %s\n\n", insertBefore)
+	fmt.Fprintf(&o, "/-- `blockChain.insertBlock` (src/core/blockchain_add.go), statements in source order (logging and marshalling folded). -/\ndef insertBlockSkeleton : List String :=\n  %s\n\n", leanStrList(ib))
+	fmt.Fprintf(&o, "/-- `blockChain.saveStates`: returns true only after `state.Commit` and `trieDB.Commit(root)` both returned nil. -/\ndef saveStatesSkeleton : List String :=\n  %s\n\n", leanStrList(ss))
+	fmt.Fprintf(&o, "/-- `blockChain.updateLastBlock`: the head record write and its error check. -/\ndef updateLastBlockSkeleton : List String := %s\n\n", leanStrList(ul))
+	fmt.Fprintf(&o, "/-- every `Put`/`Delete` of the head record key `latestBlockKey` in src/core (file:function:op). -/\ndef headRecordWriters : List String := %s\n\n", leanStrList(headWriters))
+	fmt.Fprintf(&o, "/-- `blockChainFork.saveState` (src/core/fork_block.go): the same commit pair. -/\ndef forkSaveStateSkeleton : List String := %s\n\n", leanStrList(fs))
 	fmt.Fprintf(&o, "/-- every assignment of something other than `true` to a `dirty*` field in src/storage/account (non-test). -/\ndef dirtyFlagClearSites : List String :=\n  %s\n\n", leanStrList(dirtyClears))
 	fmt.Fprintf(&o, "/-- every `delete(<dirty set>, …)` in src/storage/account (non-test). -/\ndef dirtySetDeleteSites : List String :=\n  %s\n\n", leanStrList(dirtyDeletes))
 	fmt.Fprintf(&o, "/-- every direct assignment to a `dirty*` field inside a journal undo (transition.go); undos go through the setters. -/\ndef undoDirtyFieldAssignments : List String := %s\n\n", leanStrList(undoDirty))
